@@ -33,7 +33,7 @@ class C02(Prop):
         "integral for many n) x both directions, functional quantile and median; 'random' = structured random y with heavy ties "
         "/ sorted / saw-tooth shapes and dyadic levels; 'decimal' = decimal levels (0.1, 0.3, ...) after checking that numpy's "
         "float rank selection agrees with exact arithmetic for every block size (divergent cases are counted and skipped). "
-        "Comparison: x equal to the model (midpoints of data values are exact in floats for these inputs) and r identical; "
+        "'dtype' = bool / int8 / uint8 / uint16 / uint32 / float32 observations with zeros, direction flag as numpy.bool_ or int. Comparison: x equal to the model (midpoints of data values are exact in floats for these inputs) and r identical; "
         "oracle: monotone, inside [min y, max y], total pinball loss equal to the exact minimum over all monotone sequences "
         "(dynamic programme over data values, Fractions). Non-trivial = some pooling and non-constant y."
     )
@@ -71,6 +71,11 @@ class C02(Prop):
             }
             if c["f"] == "quantile" and ic.float_rank_divergent(c["level"], n):
                 self.float_rank_divergent += 1
+                continue
+            yield c
+        for k in range(400 if tier == "quick" else 4000):
+            c = ic.gen_dtype_case(rng, rng.choice(["quantile", "quantile", "median"]), rng.choice(ic.DYADIC_LEVELS[:9]))
+            if c["f"] == "quantile" and ic.float_rank_divergent(c["level"], len(c["y"])):
                 continue
             yield c
         for k in range(600 if tier == "quick" else 10000):
